@@ -82,6 +82,7 @@ def gen_cfg(seed, index, tier):
     m["spin_dep"] = m["wt"] == "unrestricted" and rng.random() < 0.6
     m["rdm1_kind"] = rng.choice(["own", "arbitrary"])
     m["h1_antisym"] = rng.choice([0.0, 0.0, 0.0, 0.05])
+    m["reuse_ham_data"] = rng.random() < 0.3  # intermediates rebuilt on a dict that was built for another Hamiltonian before
     m["jax_seed"] = rng.randrange(1, 2**20)
     m["walker_noise"] = rng.choice([0.05, 0.2, 0.5])
     # the free-projection reference energy is a legal entry of ham_data; a phaseless step must not depend on it
@@ -129,8 +130,7 @@ def build(cfg, dt=None):
         r0 = np.asarray(s.wave_data["rdm1"])
         s.wave_data = dict(s.wave_data)
         s.wave_data["rdm1"] = jnp.array(r0 + np.array([lab.rand_sym(rs, cfg["norb"], 0.3), lab.rand_sym(rs, cfg["norb"], 0.3)]))
-    hd = s.ham.build_measurement_intermediates(dict(s.ham_data_raw), s.trial, s.wave_data)
-    s.ham_data = s.ham.build_propagation_intermediates(hd, s.plain, s.trial, s.wave_data)
+    s.ham_data = lab.build_intermediates(s, s.plain, reuse=cfg.get("reuse_ham_data", False))
     return s, rs
 
 
